@@ -1,2 +1,2 @@
-import ScVerif.C01.Drv
-def main : IO Unit := ScVerif.Line.runDriverS ScVerif.C01.DrvState.none ScVerif.C01.handleS
+import ScVerif.C01.NestedDrv
+def main : IO Unit := ScVerif.Line.runDriverS ({} : ScVerif.C01.NSt) ScVerif.C01.handleN
